@@ -308,6 +308,19 @@ def gen_cases(rng, n):
       except ValueError:
         pass
       continue
+    if k % 27 == 2:
+      # directed: ONE constant tensor read by two element-wise ops whose rules select
+      # different static configs (int8 vs int16 activations, ...): must be refused
+      # (buffer-sharing rule) or come out consistent and loadable
+      mb, info = gg.shared_operand_model(rng)
+      qt = quantizer.Quantizer(bytearray(mb))
+      ca, cb = rng.choice([('a8w8', 'a16w8'), ('a16w8', 'a8w8'), ('a8w8', 'a8sw8'), ('a8w8', 'a8w8')])
+      ncfg = gr.named_configs()
+      desc = gr.apply_rules(qt, [('.*', info['kinds'][0], ncfg[ca][0], ca), ('.*', info['kinds'][1], ncfg[cb][0], cb)])
+      if len(desc) == 2:
+        stats = gr.own_stats(mb, gg.random_inputs(mb, rng, 1))
+        yield mb, qt, stats, desc, dict(info, real_stats=True, directed='shared-operand-two-static-configs')
+      continue
     fan = rng.choice([3, 3, 4]) if k % 9 == 4 else 0
     alias = (k % 9 == 7)     # directed: one tensor under two graph outputs x static recipe
     # directed: the model also RETURNS one of its constants (F27) — C01's stream only: the
